@@ -23,7 +23,7 @@ use std::sync::Arc;
 
 type Peer = PeerCrypto<NodeInfo>;
 
-const ROLES: [&str; 3] = ["priv", "privpub", "trusted"];
+const ROLES: [&str; 4] = ["priv", "privpub", "trusted", "sharedown"];
 
 fn chars(s: &str) -> Vec<String> {
     s.chars().map(|c| c.to_string()).collect()
@@ -189,6 +189,12 @@ fn run_role(role: &str, priv_text: &str, pub_text: &str, partner: &Partner, r: &
             },
             ..Default::default()
         },
+        // two nodes share the generated pair and each lists the printed public key - its own - next to another trusted key
+        "sharedown" => CryptoConfig {
+            private_key: Some(priv_text.to_string()),
+            trusted_keys: if priv_text.len() % 2 == 0 { vec![ref_pub_text.clone(), pub_text.to_string()] } else { vec![pub_text.to_string(), ref_pub_text.clone()] },
+            ..Default::default()
+        },
         _ => CryptoConfig {
             private_key: Some(ref_priv_text.clone()),
             trusted_keys: vec![pub_text.to_string()],
@@ -202,6 +208,12 @@ fn run_role(role: &str, priv_text: &str, pub_text: &str, partner: &Partner, r: &
     let mut a = under_test.peer_instance(payload(1));
     // partner holding the counterpart
     let mut b: Peer = match (partner, role) {
+        (_, "sharedown") => {
+            match configure(2, &CryptoConfig { private_key: Some(priv_text.to_string()), trusted_keys: vec![pub_text.to_string(), ref_pub_text.clone()], ..Default::default() }) {
+                Ok(c) => c.peer_instance(payload(2)),
+                Err((_, msg)) => return RoleOutcome { res: "ok", err: format!("partner: {}", msg), hs: false, pfp },
+            }
+        }
         (Partner::Raw { public, .. }, "priv") | (Partner::Raw { public, .. }, "privpub") => raw_peer(2, &r.seed, public),
         (Partner::Raw { seed, .. }, _) => raw_peer(2, seed, &r.public),
         (Partner::Password(pw), "priv") | (Partner::Password(pw), "privpub") => {
